@@ -12,12 +12,28 @@
    outside any Gallina model and is measured. *)
 From Coq Require Import List ZArith NArith Bool Arith.
 Import ListNotations.
-Require Import Gram.Model.Token Gram.Model.Grammar Gram.Gen.ParserSkeleton Gram.Model.Parser Gram.Model.ParserPost Gram.Proofs.ParserProofs Gram.Proofs.PackratProofs.
+Require Import Gram.Model.Token Gram.Model.Grammar Gram.Gen.ParserSkeleton Gram.Model.Parser Gram.Model.ParserPost Gram.Proofs.ParserProofs Gram.Proofs.PackratProofs Gram.Proofs.ScanProofs.
 
 Theorem C17_miss_bound : forall toks, snd (fst (parse_stage1 toks true)) <= 36 * (length toks + 1).
 Proof. exact packrat_miss_bound. Qed.
 Check C17_miss_bound : forall toks, snd (fst (parse_stage1 toks true)) <= 36 * (length toks + 1).
 Print Assumptions C17_miss_bound.
+
+(* the error-recovery scan (the only loop of the parser outside the memo table) is paid for by misses:
+   at most 2*(tokens+1) scan steps per executed body, hence a quadratic bound for every token list *)
+Theorem C17_scans_le_misses : forall toks memo,
+  snd (parse_stage1 toks memo) <= 2 * (length toks + 1) * snd (fst (parse_stage1 toks memo)).
+Proof. exact stage1_scans_le_misses. Qed.
+Check C17_scans_le_misses : forall toks memo,
+  snd (parse_stage1 toks memo) <= 2 * (length toks + 1) * snd (fst (parse_stage1 toks memo)).
+Print Assumptions C17_scans_le_misses.
+
+Theorem C17_scan_bound : forall toks,
+  snd (parse_stage1 toks true) <= 2 * (length toks + 1) * (36 * (length toks + 1)).
+Proof. exact packrat_scan_bound. Qed.
+Check C17_scan_bound : forall toks,
+  snd (parse_stage1 toks true) <= 2 * (length toks + 1) * (36 * (length toks + 1)).
+Print Assumptions C17_scan_bound.
 
 Theorem C17_no_left_recursion : forallb head_ok all_nts = true.
 Proof. exact no_left_recursion. Qed.
